@@ -30,6 +30,7 @@ type Entry struct {
 	Unwind   int      `json:"unwind,omitempty"`
 	Switches int      `json:"switches,omitempty"`
 	BlockChoices bool `json:"block_choices,omitempty"`
+	Strings  bool     `json:"strings,omitempty"`
 	MaxPaths int      `json:"max_paths,omitempty"`
 	TimeoutS int      `json:"timeout_s,omitempty"`
 	Conc     int      `json:"concretize,omitempty"`
@@ -299,6 +300,7 @@ func cmdCheck(args []string) {
 			cfg.MaxSwitches = 0
 		}
 		cfg.BlockChoices = e.BlockChoices
+		cfg.Strings = e.Strings
 		if e.MaxPaths > 0 {
 			cfg.MaxPaths = e.MaxPaths
 		}
@@ -434,6 +436,7 @@ type replayFile struct {
 	Label    string           `json:"label"`
 	Kind     string           `json:"kind"`
 	Vars     map[string]int64 `json:"vars"`
+	SVars    map[string]string `json:"svars,omitempty"`
 	Choices  []int64          `json:"choices"`
 	Facts    map[string]string `json:"facts,omitempty"`
 	Native   bool             `json:"native"`
@@ -446,7 +449,7 @@ func writeReplay(prop string, e Entry, v *sx.Violation) string {
 	os.MkdirAll(dir, 0755)
 	h := sha1.Sum([]byte(v.Label))
 	p := filepath.Join(dir, fmt.Sprintf("%s-%x.json", e.Func, h[:4]))
-	b, _ := json.MarshalIndent(replayFile{prop, e.Pkg, e.Func, e.Files, e.Extra, v.Label, v.Kind, v.Vars, v.Choices, v.Facts, e.Native, v.Trace, v.Oracle}, "", " ")
+	b, _ := json.MarshalIndent(replayFile{prop, e.Pkg, e.Func, e.Files, e.Extra, v.Label, v.Kind, v.Vars, v.SVars, v.Choices, v.Facts, e.Native, v.Trace, v.Oracle}, "", " ")
 	os.WriteFile(p, b, 0644)
 	return p
 }
@@ -556,7 +559,7 @@ func cmdReplay(args []string) {
 		sx.ReplaySymbolic(prog, fn, rf.Trace, filepath.Join(verifDir, ".work"))
 		fmt.Fprintln(os.Stderr, "==== concrete run")
 	}
-	failed := sx.ReplayConcrete(prog, fn, rf.Vars, rf.Choices, rf.Oracle)
+	failed := sx.ReplayConcrete(prog, fn, rf.Vars, rf.SVars, rf.Choices, rf.Oracle)
 	fmt.Printf("engine concrete re-execution of %s: failed obligations: %q\n", rf.Func, failed)
 	ok := false
 	for _, l := range failed {
